@@ -2997,6 +2997,8 @@ pub struct VerifState {
     /// key of the mask cache, if an entry is stored: (lexer state id, row index, has pending)
     pub cache_key: Option<(u32, u32, bool)>,
     pub lexer_stack_top_eos: bool,
+    /// lexemes scanned when each row 1..row_infos.len() was pushed (definitive rows only); row 0 is the start row
+    pub row_lexemes: Vec<Vec<u32>>,
 }
 
 #[cfg(feature = "llg_verif")]
@@ -3044,6 +3046,21 @@ impl Parser {
                 .as_ref()
                 .map(|c| (c.lexer_state.as_u32(), c.row_idx, c.has_pending_lexeme_bytes)),
             lexer_stack_top_eos: s.lexer_stack_top_eos,
+            row_lexemes: {
+                let sh = self.shared.lock().unwrap();
+                s.row_infos
+                    .iter()
+                    .skip(1)
+                    .map(|ri| {
+                        sh.lexer()
+                            .lexemes_from_idx(ri.lexeme.idx)
+                            .as_slice()
+                            .iter()
+                            .map(|l| l.as_usize() as u32)
+                            .collect()
+                    })
+                    .collect()
+            },
         }
     }
 }
